@@ -57,6 +57,7 @@ var configs = [][]string{
 type Case struct {
 	Config  int   `json:"config"`
 	Letters []int `json:"letters"`
+	Prev    []int `json:"previous_batch_on_the_same_issuer_object,omitempty"`
 }
 
 type worldT struct {
@@ -201,7 +202,7 @@ func expectPresent(cfg []string, letter int) bool {
 }
 
 func run(c Case) (string, *mc.Viol) {
-	lbl := fmt.Sprintf("c%d-%v", c.Config, c.Letters)
+	lbl := fmt.Sprintf("c%d-%v-after-%v", c.Config, c.Letters, c.Prev)
 	mc.Entropy("c05-" + lbl)
 	w := buildWorld()
 	cfg := configs[c.Config]
@@ -221,6 +222,19 @@ func run(c Case) (string, *mc.Viol) {
 		}
 	}
 	bi := batched.NewBasicBatchedIssuer(issuers...)
+	if len(c.Prev) > 0 {
+		// the issuer object has served another batch before: nothing of it may show in this one
+		var pl []tokens.TokenRequestWithDetails
+		for i, l := range c.Prev {
+			pl = append(pl, w.makeSlot(l, 100+i, lbl).req)
+		}
+		if pb, err := batched.NewBasicClient().CreateTokenRequest(pl); err == nil {
+			pd := new(batched.BatchedTokenRequest)
+			if pd.Unmarshal(append([]byte{}, pb.Marshal()...)) {
+				_, _ = bi.EvaluateBatch(pd)
+			}
+		}
+	}
 	slots := make([]slot, len(c.Letters))
 	var list []tokens.TokenRequestWithDetails
 	for i, l := range c.Letters {
@@ -378,6 +392,25 @@ func main() {
 		}
 	}
 	build(nil)
+	// two consecutive batches on ONE issuer object: every ordered pair of batches of length 1..2 over
+	// a reduced alphabet
+	{
+		red := []int{t1A, t2A, t1Unknown, t2Bad, t1C}
+		var small [][]int
+		for _, a := range red {
+			small = append(small, []int{a})
+			for _, b := range red {
+				small = append(small, []int{a, b})
+			}
+		}
+		for _, cfg := range []int{0, 7} {
+			for _, prev := range small {
+				for _, cur := range small {
+					cases = append(cases, Case{Config: cfg, Letters: cur, Prev: prev})
+				}
+			}
+		}
+	}
 	// large homogeneous batches: the encoded response list crosses the varint class boundaries
 	// (16383/16384 bytes at 64 type-2 / 113 type-1 entries) and 2^16 (254 type-2 / 449 type-1)
 	big := map[int][]int{t2A: mc.Pick(r, []int{63, 64, 254}, []int{63, 64, 65, 253, 254, 255, 300}), t1A: mc.Pick(r, []int{112, 113, 449}, []int{112, 113, 114, 448, 449, 450})}
@@ -422,7 +455,7 @@ func main() {
 			}
 			out = fmt.Sprintf("ok:%d-present-%d-absent", p, a)
 		}
-		r.Case(fmt.Sprintf("%d-%v", c.Config, c.Letters), true, out)
+		r.Case(fmt.Sprintf("%d-%v-%v", c.Config, c.Letters, c.Prev), true, out)
 		if i%1200 == 5 {
 			r.Sample(map[string]any{"config": configs[c.Config], "batch": names(c.Letters), "outcome": out})
 		}
